@@ -746,6 +746,10 @@ func unpackCorpus(arena string) []*UCase {
 		mk(L("l", "../dst-evil/x"), F("l", "pwn")),
 		mk(L("l", "../dst-evil/new.txt"), F("l", "created")),
 		mk(L("l", "../dst-evil"), D("l/", 0700)),
+		// a name with two leading slashes and a target that climbs above the link's depth and then
+		// spells out dst's own absolute path (seed C04-b: the link judged at "/a/link", not at dst/a/link)
+		mk(D("a/", 0755), L("//a/link", "../.."+arena+"/p/q/dst/inner")),
+		mk(L("//link", ".."+arena+"/p/q/dst/inner")),
 		// a read-only earlier version that is longer than the later one (seed C15-c; bites unprivileged)
 		mk(Fm("a", "first version of a, the long one", 0400), F("a", "v2")),
 		mk(D("d/", 0755), Fm("d/a", "first version of a, the long one", 0444), Fm("d/a", "v2", 0400), F("d/a", "3")),
